@@ -63,3 +63,10 @@ Print Assumptions C19_accounted_complete.
 Theorem C19_loadable_heights : map loadable_at (seq 0 (length GenUpgrade.upgrades)) = [false; false; false; true; true].
 Proof. exact repo_loadable_heights. Qed.
 Print Assumptions C19_loadable_heights.
+
+(** the custom modules' consensus versions in this binary are the ones the previous releases recorded: at the upgrade
+    height RunMigrations finds no version step for them, hence needs no migration (none is registered) and cannot halt on
+    "no migrations found"; the upgrade profile runs the plan on a chain whose version map is shaped to that baseline *)
+Theorem C19_custom_versions_need_no_migration : GenUpgrade.custom_consensus_versions = baseline_custom_versions.
+Proof. exact repo_custom_versions_need_no_migration. Qed.
+Print Assumptions C19_custom_versions_need_no_migration.
